@@ -124,7 +124,11 @@ func (env *SpecEnv) eval(e Expr) (Val, types.Type) {
 		}
 		if g, ok := vc.gglobals[x.Name]; ok {
 			s := ghostSort(g.GoTyp)
-			return Sc{st.arrayIn(env.snap(), "GG_"+g.Name, s), s}, ghostType(g.GoTyp)
+			gt := ghostType(g.GoTyp)
+			if _, isSet := gt.(*setType); isSet {
+				return SetV{T: st.arrayIn(env.snap(), "GG_"+g.Name, s), K: SInt}, gt
+			}
+			return Sc{st.arrayIn(env.snap(), "GG_"+g.Name, s), s}, gt
 		}
 		// package-level constant in the current package
 		if env.pkg != nil {
@@ -231,10 +235,11 @@ func ghostSort(goTyp string) Sort {
 	case "bool":
 		return SBool
 	}
+	if strings.HasPrefix(goTyp, "ref[") {
+		return SInt
+	}
 	if strings.HasPrefix(goTyp, "set[") {
-		if goTyp == "set[string]" || goTyp == "set[uint64]" || goTyp == "set[int]" || goTyp == "set[ref]" {
-			return arrSort(SInt, SBool)
-		}
+		return arrSort(SInt, SBool)
 	}
 	if strings.HasPrefix(goTyp, "seq[") {
 		return arrSort(SInt, SInt)
@@ -243,6 +248,9 @@ func ghostSort(goTyp string) Sort {
 }
 
 func ghostType(goTyp string) types.Type {
+	if strings.HasPrefix(goTyp, "ref[") {
+		return tInt
+	}
 	switch goTyp {
 	case "int", "ref":
 		return tInt
@@ -376,6 +384,13 @@ func (env *SpecEnv) evalSel(x *ESel) (Val, types.Type) {
 		a := st.arrayIn(env.snap(), name, arrSort(SInt, s))
 		t := sSel(a, obj)
 		gt := ghostType(g.GoTyp)
+		if strings.HasPrefix(g.GoTyp, "ref[") {
+			nt, err := vc.resolveNamed(g.GoTyp[4:len(g.GoTyp)-1], vc.pkgOf(g.Pkg))
+			if err != nil {
+				sfail("ghost field %s: %v", g.Field, err)
+			}
+			return Sc{t, s}, types.NewPointer(nt)
+		}
 		if _, isSet := gt.(*setType); isSet {
 			return SetV{T: t, K: SInt}, gt
 		}
@@ -436,6 +451,9 @@ func scalarEq(a, b Val) (string, bool) {
 	case IfaceV:
 		switch y := b.(type) {
 		case IfaceV:
+			if x.Tag == "0" || y.Tag == "0" {
+				return sEq(x.Tag, y.Tag), true // comparison with the nil interface
+			}
 			return sAnd(sEq(x.Tag, y.Tag), sEq(x.Pay, y.Pay)), true
 		case Sc:
 			if y.T == "0" {
@@ -663,13 +681,20 @@ func (env *SpecEnv) evalQuant(q *EQuant) (Val, types.Type) {
 		}
 		e2 := env
 		var binds []string
+		var bvars []string
 		for _, vn := range q.Vars {
 			vc.counter++
 			v := fmt.Sprintf("%s!%d", vn, vc.counter)
+			bvars = append(bvars, v)
 			binds = append(binds, fmt.Sprintf("(%s %s)", v, sort))
 			e2 = e2.withBound(vn, nameEntry{V: Sc{v, sort}, T: t})
 		}
 		body := e2.evalBool(q.Body)
+		if len(bvars) == 1 {
+			if pat := findSelectPattern(body, bvars[0]); pat != "" {
+				return boolv(fmt.Sprintf("(%s (%s) (! %s :pattern (%s)))", kw, strings.Join(binds, " "), body, pat)), tBool
+			}
+		}
 		return boolv(fmt.Sprintf("(%s (%s) %s)", kw, strings.Join(binds, " "), body)), tBool
 	}
 	return nil, nil
@@ -731,9 +756,9 @@ func (env *SpecEnv) evalCall(c *ECall) (Val, types.Type) {
 	case "allocated":
 		v, _ := env.eval(c.Args[0])
 		if env.inOld {
-			return boolv(fmt.Sprintf("(< %s %s)", asSc(v).T, env.oldAlloc)), tBool
+			return boolv(fmt.Sprintf("(and (<= 0 %s) (< %s %s))", asSc(v).T, asSc(v).T, env.oldAlloc)), tBool
 		}
-		return boolv(fmt.Sprintf("(< %s %s)", asSc(v).T, st.allocTerm())), tBool
+		return boolv(fmt.Sprintf("(and (<= 0 %s) (< %s %s))", asSc(v).T, asSc(v).T, st.allocTerm())), tBool
 	case "typeis":
 		// typeis(ifaceExpr, "go type string")
 		v, _ := env.eval(c.Args[0])
@@ -911,4 +936,117 @@ func asSet(v Val) SetV {
 	}
 	sfail("set value expected, got %T", v)
 	return SetV{}
+}
+
+// findSelectPattern returns the first term "(select <symbol> v)" occurring in body (used as E-matching trigger).
+func findSelectPattern(body, v string) string {
+	needle := " " + v + ")"
+	idx := 0
+	for {
+		i := strings.Index(body[idx:], needle)
+		if i < 0 {
+			return ""
+		}
+		i += idx
+		// walk back to "(select "
+		j := strings.LastIndex(body[:i], "(select ")
+		if j >= 0 {
+			arr := body[j+len("(select ") : i]
+			if !strings.ContainsAny(arr, " ()") {
+				return body[j : i+len(needle)]
+			}
+		}
+		idx = i + 1
+	}
+}
+
+// ---------- predicate expansion (so that clauses split into small obligations) ----------
+
+var alphaCounter int
+
+func substExpr(e Expr, sub map[string]Expr) Expr {
+	switch x := e.(type) {
+	case nil:
+		return nil
+	case *EIdent:
+		if r, ok := sub[x.Name]; ok {
+			return r
+		}
+		return x
+	case *ENum, *EStr, *ENil, *EBool:
+		return e
+	case *EBin:
+		return &EBin{Op: x.Op, L: substExpr(x.L, sub), R: substExpr(x.R, sub)}
+	case *EUn:
+		return &EUn{Op: x.Op, X: substExpr(x.X, sub)}
+	case *ESel:
+		return &ESel{X: substExpr(x.X, sub), F: x.F}
+	case *EIndex:
+		return &EIndex{X: substExpr(x.X, sub), I: substExpr(x.I, sub)}
+	case *ESlice:
+		return &ESlice{X: substExpr(x.X, sub), Lo: substExpr(x.Lo, sub), Hi: substExpr(x.Hi, sub)}
+	case *ECall:
+		n := &ECall{Fn: x.Fn}
+		for _, a := range x.Args {
+			n.Args = append(n.Args, substExpr(a, sub))
+		}
+		return n
+	case *EOld:
+		return &EOld{X: substExpr(x.X, sub)}
+	case *EIte:
+		return &EIte{C: substExpr(x.C, sub), A: substExpr(x.A, sub), B: substExpr(x.B, sub)}
+	case *EQuant:
+		// alpha-rename the bound variables to avoid capture
+		n := *x
+		inner := map[string]Expr{}
+		for k, v := range sub {
+			inner[k] = v
+		}
+		n.Vars = nil
+		for _, v := range x.Vars {
+			alphaCounter++
+			nv := fmt.Sprintf("%s_%d", v, alphaCounter)
+			n.Vars = append(n.Vars, nv)
+			inner[v] = &EIdent{Name: nv}
+		}
+		n.Range = substExpr(x.Range, sub)
+		n.Lo = substExpr(x.Lo, sub)
+		n.Hi = substExpr(x.Hi, sub)
+		n.Body = substExpr(x.Body, inner)
+		return &n
+	}
+	return e
+}
+
+// expandPreds replaces applications of (non-recursive) predicates by their bodies.
+func (vc *VC) expandPreds(e Expr, depth int) Expr {
+	if depth > 12 {
+		return e
+	}
+	switch x := e.(type) {
+	case nil:
+		return nil
+	case *EBin:
+		return &EBin{Op: x.Op, L: vc.expandPreds(x.L, depth), R: vc.expandPreds(x.R, depth)}
+	case *EUn:
+		return &EUn{Op: x.Op, X: vc.expandPreds(x.X, depth)}
+	case *EOld:
+		return &EOld{X: vc.expandPreds(x.X, depth)}
+	case *EIte:
+		return &EIte{C: vc.expandPreds(x.C, depth), A: vc.expandPreds(x.A, depth), B: vc.expandPreds(x.B, depth)}
+	case *EQuant:
+		n := *x
+		n.Body = vc.expandPreds(x.Body, depth)
+		return &n
+	case *ECall:
+		if p, ok := vc.preds[x.Fn]; ok && len(p.Params) == len(x.Args) {
+			sub := map[string]Expr{}
+			for i, a := range x.Args {
+				sub[p.Params[i]] = vc.expandPreds(a, depth)
+			}
+			return vc.expandPreds(substExpr(p.Body, sub), depth+1)
+		}
+		return x
+	}
+	return e
 }
